@@ -2,6 +2,7 @@ package govc
 
 import (
 	"fmt"
+	"sort"
 	"go/types"
 	"math/big"
 	"strings"
@@ -106,6 +107,27 @@ func (eng *Engine) resolveTypeIn(name string, pkg *types.Package) (types.Type, e
 		}
 		return types.NewSlice(t), nil
 	}
+	if strings.HasPrefix(name, "map[") {
+		depth := 0
+		for i := 3; i < len(name); i++ {
+			if name[i] == '[' {
+				depth++
+			} else if name[i] == ']' {
+				depth--
+				if depth == 0 {
+					k, err := eng.resolveTypeIn(name[4:i], pkg)
+					if err != nil {
+						return nil, err
+					}
+					v, err := eng.resolveTypeIn(name[i+1:], pkg)
+					if err != nil {
+						return nil, err
+					}
+					return types.NewMap(k, v), nil
+				}
+			}
+		}
+	}
 	if !strings.Contains(name, ".") {
 		if pkg != nil {
 			if obj := pkg.Scope().Lookup(name); obj != nil {
@@ -204,8 +226,9 @@ func (env *cenv) eval(e *CExpr) cval {
 		}
 		switch u := b.typ.Underlying().(type) {
 		case *types.Map:
-			_, val, _ := g.mapArrs(u)
-			return cval{term: fmt.Sprintf("(select (select %s %s) %s)", g.get(env.cur, val), b.term, i.term), typ: u.Elem(), sort: g.s.sortOf(u.Elem())}
+			// Go semantics: the zero value for an absent key (and for a nil map)
+			has, val, _ := g.mapArrs(u)
+			return cval{term: fmt.Sprintf("(ite (and (not (= %s 0)) (select (select %s %s) %s)) (select (select %s %s) %s) %s)", b.term, g.get(env.cur, has), b.term, i.term, g.get(env.cur, val), b.term, i.term, g.s.zero(u.Elem())), typ: u.Elem(), sort: g.s.sortOf(u.Elem())}
 		case *types.Slice:
 			arr := g.elemArr(u.Elem())
 			return cval{term: fmt.Sprintf("(select (select %s (sarr %s)) (+ (soff %s) %s))", g.get(env.cur, arr), b.term, b.term, i.term), typ: u.Elem(), sort: g.s.sortOf(u.Elem())}
@@ -499,7 +522,7 @@ func (env *cenv) call(e *CExpr) cval {
 			env.fail("has: not a map")
 		}
 		has, _, _ := g.mapArrs(mt)
-		return env.boolv(fmt.Sprintf("(select (select %s %s) %s)", g.get(env.cur, has), m.term, k.term))
+		return env.boolv(fmt.Sprintf("(and (not (= %s 0)) (select (select %s %s) %s))", m.term, g.get(env.cur, has), m.term, k.term))
 	case "typeis":
 		a := env.eval(args[0])
 		if a.sort != "Iface" {
@@ -631,6 +654,19 @@ func (env *cenv) call(e *CExpr) cval {
 			env.fail("inre: %v", err)
 		}
 		return env.boolv(fmt.Sprintf("(str.in_re %s %s)", a.term, re))
+	case "fapply":
+		// fapply(f, args...): the value the pure function value f returns
+		f := env.eval(args[0])
+		sig, ok := f.typ.Underlying().(*types.Signature)
+		if !ok || sig.Results().Len() != 1 {
+			env.fail("fapply: %s is not a single-result function value", args[0])
+		}
+		var as []string
+		for _, a := range args[1:] {
+			as = append(as, env.eval(a).term)
+		}
+		rt := sig.Results().At(0).Type()
+		return cval{term: g.applyTerm(sig, f.term, as), typ: rt, sort: g.s.sortOf(rt)}
 	case "sarr":
 		a := env.eval(args[0])
 		if a.sort != "Slice" {
@@ -696,6 +732,9 @@ func (env *cenv) specCall(sf *SpecFunc, args []*CExpr) cval {
 		}
 		vals = append(vals, v)
 	}
+	if sf.Rec && sf.Body != nil {
+		return env.recSpecCall(sf, &pkgEnv, vals, rs, rt)
+	}
 	if sf.Body != nil {
 		// macro expansion: evaluated in the spec's own package scope with parameters bound
 		n := pkgEnv
@@ -726,4 +765,60 @@ func (env *cenv) specCall(sf *SpecFunc, args []*CExpr) cval {
 		return cval{term: name, sort: rs, typ: rt}
 	}
 	return cval{term: fmt.Sprintf("(%s %s)", name, strings.Join(ts, " ")), sort: rs, typ: rt}
+}
+
+// recSpecCall: recursive spec functions become define-fun-rec; every state variable the body reads is an
+// extra leading parameter, instantiated with the versions of the calling state.
+func (env *cenv) recSpecCall(sf *SpecFunc, pkgEnv *cenv, vals []cval, rs string, rt types.Type) cval {
+	g := env.g
+	if g.recSpecs == nil {
+		g.recSpecs = map[string][]string{}
+	}
+	name := q("rec." + sf.Name)
+	if env.cur.formal != nil {
+		// a recursive call inside the body being defined: same heap formals (completed after the first pass)
+		var ts []string
+		for _, v := range vals {
+			ts = append(ts, v.term)
+		}
+		return cval{term: "(" + name + " @HEAP@ " + strings.Join(ts, " ") + ")", sort: rs, typ: rt}
+	}
+	heap, done := g.recSpecs[sf.Name]
+	if !done {
+		// evaluate the body with formal heap symbols to find out which state variables it depends on
+		var formals []string
+		fenv := *pkgEnv
+		fenv.cur = &State{m: map[string]string{}, formal: &formals}
+		fenv.old = nil
+		fenv.vars = map[string]cval{}
+		var params []string
+		for i, p := range sf.Params {
+			ps, pt := pkgEnv.sortOfTypeName(sf.ParamTypes[i].Name)
+			sym := q("rp." + p)
+			fenv.vars[p] = cval{term: sym, sort: ps, typ: pt}
+			params = append(params, fmt.Sprintf("(%s %s)", sym, ps))
+		}
+		body := fenv.eval(sf.Body)
+		if body.sort != rs {
+			env.fail("spec rec %s: body has sort %s, declared %s", sf.Name, body.sort, rs)
+		}
+		sort.Strings(formals)
+		var hparams, hnames []string
+		for _, f := range formals {
+			hparams = append(hparams, fmt.Sprintf("(%s %s)", q("hf."+f), g.varSort[f]))
+			hnames = append(hnames, q("hf."+f))
+		}
+		text := strings.ReplaceAll(body.term, "@HEAP@", strings.Join(hnames, " "))
+		g.emit(fmt.Sprintf("(define-fun-rec %s (%s) %s %s)", name, strings.Join(append(hparams, params...), " "), rs, text))
+		g.recSpecs[sf.Name] = formals
+		heap = formals
+	}
+	var ts []string
+	for _, f := range heap {
+		ts = append(ts, g.get(env.cur, f))
+	}
+	for _, v := range vals {
+		ts = append(ts, v.term)
+	}
+	return cval{term: "(" + name + " " + strings.Join(ts, " ") + ")", sort: rs, typ: rt}
 }
